@@ -56,10 +56,16 @@ pub struct LlrStats {
     pub sum_lag1: f64, // sum |x_i|*|x_{i+1}| over adjacent LLRs of one frame (independence probe)
     pub n_lag1: u64,
     pub sum: f64,
+    /// per position of the frame (codeword order): up to 64 distinct LLR bit patterns seen, and the number of frames
+    pub pos_distinct: Vec<std::collections::HashSet<u64>>,
+    pub frames: u64,
 }
 
 impl LlrStats {
     pub fn add_frame(&mut self, llrs: &[f64], skip_zero: bool) {
+        if self.pos_distinct.len() < llrs.len() { self.pos_distinct.resize(llrs.len(), Default::default()); }
+        for (set, x) in self.pos_distinct.iter_mut().zip(llrs.iter()) { if set.len() < 64 { set.insert(x.to_bits()); } }
+        self.frames += 1;
         let v: Vec<f64> = llrs.iter().copied().filter(|x| !(skip_zero && *x == 0.0)).collect();
         for &x in &v {
             self.n += 1;
